@@ -55,7 +55,21 @@ func (e *Engine) allSQLStatements() []*sqlStmt {
 		if fn.Parent() != nil || fn.Origin() != nil || !sqlPkgs[pkgOf(fn)] {
 			continue
 		}
-		out = append(out, e.sqlStatements(fn)...)
+		for _, st := range e.sqlStatements(fn) {
+			// a statement a factory only starts and returns is analysed where it is completed (at the callers)
+			partial := len(st.Exec) > 0 && len(st.RunWith) == 0
+			for _, x := range st.Exec {
+				if x != "returned" {
+					partial = false
+				}
+			}
+			if partial {
+				if _, isBuilder := isSqBuilderType(fn.Signature.Results().At(0).Type()); fn.Signature.Results().Len() == 1 && isBuilder && len(st.Wheres) == 0 {
+					continue
+				}
+			}
+			out = append(out, st)
+		}
 	}
 	return out
 }
